@@ -541,6 +541,9 @@ class StdioClient:
                 if self.process and self.process.returncode is not None:
                     with anyio.CancelScope(shield=True):
                         await self.process.aclose()
+                        # one more turn of the loop: a pipe transport releases
+                        # its descriptor in a callback scheduled by close()
+                        await anyio.sleep(0)
             except Exception as e:
                 logger.debug(f"Error during stdio client shutdown: {e}")
 
